@@ -274,6 +274,71 @@ def hoist_suspensions(fn):
     return fn
 
 
+def desugar_conditional_with(fn):
+    """`async with (nullcontext() if C else LOCK): BODY` (also through a
+    local name) is the conditional acquire/release it abbreviates:
+        if not C: await LOCK.acquire()
+        try: BODY
+        finally:
+            if not C: LOCK.release()"""
+    defs = {}
+    for n in ast.walk(fn):
+        if isinstance(n, ast.Assign) and len(n.targets) == 1 and isinstance(
+                n.targets[0], ast.Name):
+            defs.setdefault(n.targets[0].id, []).append(n.value)
+
+    def is_null(e):
+        return isinstance(e, ast.Call) and not e.args and not e.keywords \
+            and ast.unparse(e.func).split(".")[-1] == "nullcontext"
+
+    def split(e):
+        if isinstance(e, ast.Name) and len(defs.get(e.id, [])) == 1:
+            e = defs[e.id][0]
+        if isinstance(e, ast.IfExp):
+            if is_null(e.body) and not is_null(e.orelse):
+                return ast.UnaryOp(ast.Not(), acopy(e.test)), e.orelse
+            if is_null(e.orelse) and not is_null(e.body):
+                return acopy(e.test), e.body
+        return None
+
+    def block(stmts):
+        out = []
+        for s_ in stmts:
+            for fld in ("body", "orelse", "finalbody"):
+                if isinstance(getattr(s_, fld, None), list) and \
+                        not isinstance(s_, (ast.FunctionDef,
+                                            ast.AsyncFunctionDef,
+                                            ast.ClassDef)):
+                    setattr(s_, fld, block(getattr(s_, fld)))
+            if isinstance(s_, ast.Try):
+                for h in s_.handlers:
+                    h.body = block(h.body)
+            if isinstance(s_, (ast.With, ast.AsyncWith)) and len(
+                    s_.items) == 1 and s_.items[0].optional_vars is None:
+                r = split(s_.items[0].context_expr)
+                if r is not None:
+                    cond, lock = r
+                    acq = ast.Call(ast.Attribute(acopy(lock), "acquire",
+                                                 ast.Load()), [], [])
+                    if isinstance(s_, ast.AsyncWith):
+                        acq = ast.Await(acq)
+                    rel = ast.Call(ast.Attribute(acopy(lock), "release",
+                                                 ast.Load()), [], [])
+                    pre = ast.If(acopy(cond), [ast.Expr(acq)], [])
+                    post = ast.If(acopy(cond), [ast.Expr(rel)], [])
+                    tr = ast.Try(body=s_.body, handlers=[], orelse=[],
+                                 finalbody=[post])
+                    for x in (pre, tr):
+                        ast.copy_location(x, s_)
+                        ast.fix_missing_locations(x)
+                    out += [pre, tr]
+                    continue
+            out.append(s_)
+        return out
+    fn.body = block(fn.body)
+    return fn
+
+
 def set_parents(fn):
     for n in ast.walk(fn):
         for ch in ast.iter_child_nodes(n):
@@ -289,6 +354,12 @@ def normalise(fn, world=None, modname=None, cls=None, primitives=(),
         fn = inl.expand(fn)
         info["inlined"] = inl.inlined
     parent = getattr(fn, "_parent", None)
+    if any(isinstance(n, (ast.With, ast.AsyncWith)) for n in ast.walk(fn)) \
+            and "nullcontext" in ast.unparse(fn):
+        if not info["inlined"]:
+            fn = acopy(fn)
+        fn = desugar_conditional_with(fn)
+        ast.fix_missing_locations(fn)
     if aliases == "params":
         fn = propagate_aliases(fn, only_params=True)
         ast.fix_missing_locations(fn)
